@@ -219,7 +219,7 @@ def run_shards(run, bins, unit_index, args=None, timeout=1500):
                 if u is not None:
                     src, _ = shard_source([u], run.extra_head if hasattr(run, "extra_head") else "")
                 run.violation("%s|%s" % (sig, usig), what, detail={"unit": unit, "event": d, "meta": u.meta if u else {}},
-                              replay_src=src, replay_meta={"kind": "run", "args": args, "bin_profile": os.path.basename(path)})
+                              replay_src=src, replay_meta={"kind": "run", "args": args, "bin_profile": os.path.basename(path), "deps": getattr(run, "cur_deps", "std")})
             elif t == "S" and len(parts) >= 3:
                 try:
                     d = json.loads("\t".join(parts[2:]))
@@ -244,7 +244,7 @@ def run_shards(run, bins, unit_index, args=None, timeout=1500):
                 run.violation("unit-panic:%s|%s" % (core.hashlib.sha256(msg.encode()).hexdigest()[:8], u.sig if u else ""),
                               "unexpected panic while driving %s: %s" % (parts[1], msg),
                               detail={"unit": parts[1], "meta": u.meta if u else {}}, replay_src=src,
-                              replay_meta={"kind": "run", "args": args})
+                              replay_meta={"kind": "run", "args": args, "deps": getattr(run, "cur_deps", "std")})
             elif t == "E":
                 ended = True
         missing = [u.name for u in us if u.name not in done]
